@@ -12,7 +12,7 @@ meaning (guard clauses instead of nested ifs, a reordered test) keeps the theore
 
 Supported: `self.<attr> = expr`, `if / elif / else`, `return [True|False]`, `self.logger.*(…)` (skipped), docstrings;
 expressions: the five attributes, `<KillChain>.<MEMBER>`, `KillChainStageProgress.<MEMBER>`, `<kc>.initial_stage(<kc>)`,
-`self.selected_kill_chain(e)` (as the whole right-hand side of an assignment: may raise), `e + 1`, `==`, `!=`, `and`, `or`,
+`self.selected_kill_chain(e)` (as the whole right-hand side of an assignment: may raise), `e + 1`, `==`, `!=`, `in (…)`, `not in (…)`, `and`, `or`,
 `not`, `True`, `False`, the two settings `repeat_kill_chain` / `repeat_kill_chain_stages`, and a few named opaque tests that
 become Boolean parameters.  Anything else raises Unsupported (a broken extractor obligation)."""
 import ast
@@ -88,6 +88,14 @@ class Tr:
             if lt != rt:
                 raise Unsupported(f"{src}: comparison of {lt} with {rt}")
             return (f"({l} == {r})" if isinstance(e.ops[0], ast.Eq) else f"({l} != {r})"), "bool"
+        if isinstance(e, ast.Compare) and len(e.ops) == 1 and isinstance(e.ops[0], (ast.In, ast.NotIn)) \
+                and isinstance(e.comparators[0], (ast.Tuple, ast.List, ast.Set)) and e.comparators[0].elts:
+            l, lt = self.expr(e.left)
+            alts = [self.expr(x) for x in e.comparators[0].elts]
+            if any(t != lt for _, t in alts):
+                raise Unsupported(f"{src}: membership among values of another type")
+            disj = "(" + " || ".join(f"({l} == {a})" for a, _ in alts) + ")"
+            return (disj if isinstance(e.ops[0], ast.In) else f"(!{disj})"), "bool"
         if isinstance(e, ast.BoolOp):
             parts = [self.expr(v) for v in e.values]
             if any(t != "bool" for _, t in parts):
@@ -185,7 +193,7 @@ def emit() -> str:
             if kc.get(k) != v:
                 raise Unsupported(f"{name}.{k} = {kc.get(k)} differs from BaseKillChain.{k} = {v}")
     tap = class_def(t_abs, "AbstractTAP")
-    out = ["namespace Primaite.Gen.AgentsCtl",
+    out = ["set_option linter.unusedVariables false", "namespace Primaite.Gen.AgentsCtl",
            "/-- The attributes the control methods of a threat-actor agent read and write.  `nothing`: `self.chosen_action = "
            "(\"do-nothing\", {})` was executed; `raised`: a call `self.selected_kill_chain(v)` found no member with value `v` "
            "(ValueError). -/",
